@@ -77,7 +77,12 @@ class FormulaParser(Parser):
                   | expression AMP expression
         """
         if p[2] == '&':
-            p[0] = str(p[1]) + str(p[3])
+            if isinstance(p[1], error.XLError):
+                p[0] = p[1]
+            elif isinstance(p[3], error.XLError):
+                p[0] = p[3]
+            else:
+                p[0] = ''.join('' if v is None else str(v) for v in (p[1], p[3]))
         else:
             p[0] = operators.evaluate_arithmetic(p[2], p[1], p[3])
 
